@@ -312,6 +312,28 @@ theorem C01_resolves_first (cls : Cls) (kvs : List (Str × Val)) (ht : PlainTree
   subst hcx
   simp [Val.isScalar] at hsc
 
+/-- **C01 (an out-of-range index is a miss).**  `stepsMiss t steps`: the steps walk along existing
+nodes and then index a list out of range (Python indexing would raise IndexError there, in any
+of the index spellings; whatever follows).  Then, in every spelling and on both roots, item access
+raises IndexError, `get` returns the default, `first` returns the default (unwrapped if it is a
+one-element list — `first` does that to whatever `_get` gives), and the tree is unchanged. -/
+theorem C01_out_of_range_miss (t : Val) (hroot : (∃ cls kvs, t = .dict cls kvs) ∨ (∃ cls xs, t = .list cls xs))
+    (lead : Lead) (steps : List StepSp) (d : Val) (hp : PlainSteps steps)
+    (hmiss : stepsMiss t steps = true) (fuel : Nat) (hf : fuel ≥ 2 * steps.length) :
+    getItem fuel t (renderSp lead steps) = (t, .error .IndexError) ∧
+    get fuel t (renderSp lead steps) d = (t, .ok d) ∧
+    ((∀ cl x, d ≠ .list cl [x]) → first fuel t (renderSp lead steps) d = (t, .ok d)) := by
+  have hcore : ∀ (d : Val) (raise rl : Bool),
+      getCore fuel t (renderSp lead steps) d raise rl = missResult t d raise := by
+    intro d raise rl
+    rcases hroot with ⟨cls, kvs, rfl⟩ | ⟨cls, xs, rfl⟩
+    · exact getCore_miss_dict fuel cls kvs lead steps d raise rl hp hmiss hf
+    · exact getCore_miss_list fuel cls xs lead steps d raise rl hp hmiss hf
+  refine ⟨?_, ?_, fun hd => first_of_getCore ?_ hd⟩
+  · rw [getItem, hcore]; rfl
+  · rw [XPath.get, hcore]; rfl
+  · rw [hcore]; rfl
+
 /-! Non-vacuity: a concrete tree with nested lists, a list in a list, empty containers. -/
 def exTree : Val :=
   .dict .n0 [(['a'], .dict .plain [(['b'], .list .plain [.int 1, .list .n0 [.str ['x'], .none]]),
@@ -360,5 +382,15 @@ example : renderSp .one [.idx (.lit 1) false, .idx (.lit 0) false] = ['/', '[', 
     stepsGet exList [.idx (.lit 1) false, .idx (.lit 0) false] = some (.str ['x']) := by decide
 -- the relative one-key spelling goes through the plain dictionary lookup
 example : renderSp .rel [.key ['k']] = ['k'] ∧ (getItem 20 exTree ['k']) = (exTree, .ok (.bool true)) := by decide
+
+-- out of range: `/a/b[2]`, `a/b/[-3]/zz`, `[3]` and `[1][-3]` on the list root
+example : stepsMiss exTree [.key ['a'], .key ['b'], .idx (.lit 2) false] = true ∧
+    stepsMiss exTree [.key ['a'], .key ['b'], .idx (.neg 3) true, .key ['z', 'z']] = true ∧
+    stepsMiss exList [.idx (.lit 3) false] = true ∧
+    stepsMiss exList [.idx (.lit 1) false, .idx (.neg 3) false] = true := by decide
+example : (getItem 20 exTree (renderSp .one [.key ['a'], .key ['b'], .idx (.lit 2) false])) = (exTree, .error .IndexError) := by
+  decide
+example : (XPath.get 20 exList (renderSp .rel [.idx (.lit 1) false, .idx (.neg 3) false]) (.str ['D'])) = (exList, .ok (.str ['D'])) := by
+  decide
 
 end N0.C01
